@@ -525,6 +525,61 @@ func c16Mutations(alt *c16Doc) []c16Mut {
 			b.ExpectingMoreEntries = !b.ExpectingMoreEntries
 			return fmt.Sprintf("ExpectingMoreEntries of %s -> %v", b.Address, b.ExpectingMoreEntries), "account", true
 		}},
+		// --- partial records of an account cut across chunks (ExpectingMoreEntries = true)
+		{class: "partial-record-account-data", presplit: true, apply: func(d *c16Doc, r *kit.Rand) (string, string, bool) {
+			find := func() []c16Ref {
+				var c []c16Ref
+				for _, ref := range d.refs("acct") {
+					if d.items[ref.item].chunk.Balances[ref.idx].ExpectingMoreEntries {
+						c = append(c, ref)
+					}
+				}
+				return c
+			}
+			cands := find()
+			for tries := 0; len(cands) == 0 && tries < 3; tries++ {
+				d.split(r)
+				cands = find()
+			}
+			if len(cands) == 0 {
+				return "", "account", false
+			}
+			ref := cands[r.Intn(len(cands))]
+			b := &d.items[ref.item].chunk.Balances[ref.idx]
+			var bad trackerdb.BaseAccountData
+			if protocol.Decode(b.AccountData, &bad) != nil {
+				return "", "account", false
+			}
+			bad.MicroAlgos.Raw += 1_000_000
+			b.AccountData = protocol.Encode(&bad)
+			return fmt.Sprintf("account data of the NON-FINAL partial record (ExpectingMoreEntries) of %s changed (+1 Algo); the final record keeps the genuine data", b.Address), "account", true
+		}},
+		{class: "prepended-partial-record", apply: func(d *c16Doc, r *kit.Rand) (string, string, bool) {
+			var cands []c16Ref
+			for _, ref := range d.refs("acct") {
+				bs := d.items[ref.item].chunk.Balances
+				if !bs[ref.idx].ExpectingMoreEntries && (ref.idx == 0 || bs[ref.idx-1].Address != bs[ref.idx].Address) && ref.idx > 0 {
+					cands = append(cands, ref)
+				}
+			}
+			if len(cands) == 0 {
+				return "", "account", false
+			}
+			ref := cands[r.Intn(len(cands))]
+			ch := &d.items[ref.item].chunk
+			orig := ch.Balances[ref.idx]
+			var bad trackerdb.BaseAccountData
+			if protocol.Decode(orig.AccountData, &bad) != nil {
+				return "", "account", false
+			}
+			bad.MicroAlgos.Raw += 1_000_000
+			extra := encoded.BalanceRecordV6{Address: orig.Address, AccountData: protocol.Encode(&bad), ExpectingMoreEntries: true}
+			nb := append([]encoded.BalanceRecordV6{}, ch.Balances[:ref.idx]...)
+			nb = append(nb, extra)
+			nb = append(nb, ch.Balances[ref.idx:]...)
+			ch.Balances = nb
+			return fmt.Sprintf("a resource-less record with ExpectingMoreEntries=true and altered account data (+1 Algo) inserted in front of the genuine record of %s", orig.Address), "account", true
+		}},
 		// --- resources
 		res("asset-amount", "asset-holding", isHolding, func(rd *trackerdb.ResourcesData, r *kit.Rand) string {
 			if rd.Amount > 0 && r.Bool() {
